@@ -39,7 +39,7 @@ RULE = ("cases = (settings class x spec set x rho_mult x GGA/MGGA x random param
         "in [1e-3, 1e2]; a sub-case is non-trivial when the reference value is non-zero and the oracle's own "
         "self-consistency (two quadrature resolutions / two representations) is below tol/10; distinct = distinct "
         "(class, spec/constant, parameter draw)")
-MIN_NONTRIVIAL = {"quick": 150, "thorough": 1500}
+MIN_NONTRIVIAL = {"quick": 250, "thorough": 2000}
 ASSUMPTIONS = [
     "UEG inputs: grad rho = 0, tau = (3/10)(3 pi^2)^(2/3) rho^(5/3), spin-unpolarised (nspin = 1 convention; for nspin = 2 "
     "each channel carries rho/2 and tau/2); the UEG density matrix is n1(u) = 3 rho j1(kF u)/(kF u), kF = (3 pi^2 rho)^(1/3)",
@@ -54,7 +54,7 @@ ASSUMPTIONS = [
     "SDMX: docs/features/sdmx.rst formulas times the global factor -1/4 (nspin = 1) that the page does not state "
     "(plans.py get_features); SDMXFullSettings ratio features are not documented at all: read from SDMXFullPlan as "
     "-1/4 * 4 pi int dR R^(2-j) [rho0(R)^2 + rho0(R/sqrt(r)) rho0(R sqrt(r))]/2 (and the same with d/dR, R^(4-j)); this "
-    "reading reproduces all twelve j = 0, 1 ratio constants to <= 5e-13",
+    "reading reproduces all twelve j = 0, 1 table constants to <= 1e-12",
     "fractional Laplacian: (-Laplace')^s acts on n1 in Fourier space (multiplier k^(2s)); F^dd_s = sum_i d_i d'_i "
     "(-Laplace')^s n1 (reading of ciderpress/pyscf/frac_lapl.py); _get_fl_ueg is only exercised for -1.45 <= s <= 1 (the "
     "range the repository uses is [-1, 0.5])",
@@ -304,19 +304,20 @@ def gen_cases(tier, seed):
         c.update(kw)
         cases.append(c)
     add("sl", "sl", ndraw=1 if q else 10)
-    nb = 1 if q else 5
+    nb = 1 if q else 10
     for ver in ("i", "j", "ij", "k"):
         for level in ("GGA", "MGGA"):
             for mult in ("one", "expnt"):
                 for b in range(nb):
                     add("nldf-v%s-%s-%s-b%d" % (ver, level, mult, b), "nldf", weight=3.0, version=ver, level=level,
-                        rho_mult=mult, ndraw=6 if q else 12)
+                        rho_mult=mult, ndraw=6)
     add("nldf-pin-erf", "nldf_pin")
     nd = 20 if q else 60
     for j in (0, 1, 2):
         for fam in ("0", "0d"):
             for ratio in (1.0, 1.5, 2.0):
-                add("sdmx-%s-j%d-r%.1f" % (fam, j, ratio), "sdmx", weight=8.0, j=j, fam=fam, ratio=ratio, ndens=nd)
+                add("sdmx-%s-j%d-r%.1f" % (fam, j, ratio), "sdmx", weight=8.0, j=j, fam=fam, ratio=ratio, ndens=nd,
+                    nref=3 if q else 15)
     for b in range(1 if q else 4):
         add("sdmx-assembly-b%d" % b, "sdmx_assembly", ndraw=12 if q else 30)
     for cls in ("SDMXSettings", "SDMXGSettings", "SDMX1Settings", "SDMXG1Settings", "SDMXFullSettings"):
@@ -560,7 +561,7 @@ def _run_sdmx(case, rec, rng):
     for t in tests:
         rec.tag("class", t[0])
     rhos = _densities(rng, case["ndens"])
-    nref = 3  # densities at which the full nested quadrature is run (the rest through the exact scaling of the integral)
+    nref = case["nref"]  # densities with the full nested quadrature (the rest through the exact scaling of the integral)
     worst = {}
     consts_seen = []
     selfworst = 0.0
@@ -777,10 +778,9 @@ def _run_norm(case, rec, rng):
 
 
 def _entry_mech(n, mode, default):
-    name = type(n).__name__
-    if name in ("InhomogeneityNormalizer", "GeneralNormalizer"):
-        return "%s.get_ueg[slmode=%s]" % (name, MODECLASS[mode])
-    return default
+    if n is None:
+        return default
+    return "%s.get_ueg[slmode=%s]" % (type(n).__name__, MODECLASS[mode])
 
 
 def _run_normlist(case, rec, rng):
